@@ -200,7 +200,10 @@ func runPressure(seed uint64, idx int) (in sx.V, out sx.V, tags []string) {
 		w.reqSeq[c]++
 		id := fmt.Sprintf("c%dr%d", c, w.reqSeq[c])
 		onFirst := r.Chance(60)
-		switch r.Intn(6) {
+		switch r.Intn(7) {
+		case 6: // answered by the proxy itself: written at once when nothing older is pending for the client
+			tagset["local-reply"] = true
+			return []byte(r.Pick("*1\r\n$4\r\nPING\r\n", "*1\r\n$3\r\nget\r\n", "*2\r\n$9\r\nnosuchcmd\r\n$1\r\nx\r\n"))
 		case 0, 1: // a large write
 			tagset["big-request"] = true
 			return []byte("*3\r\n$3\r\nset\r\n" + string(resp.Bulk([]byte(keyOn(id, onFirst)))) + string(resp.Bulk(bigValue(id, r.Range(1500, 9000)))))
